@@ -70,7 +70,9 @@ def run(case, stop_after=None):
     return out
   out.need_calibration = qt.need_calibration
   calib = None
-  if out.need_calibration:
+  if out.need_calibration and case.get('stats') is not None:
+    calib = constructed_stats(mspec, case['stats'])
+  elif out.need_calibration:
     seeds = case.get('calib_seeds', [1])
     res = None
     for si, sg in enumerate(mspec['subgraphs']):
@@ -94,6 +96,45 @@ def run(case, stop_after=None):
     return out
   out.qbytes = bytes(r.quantized_model)
   out.stage = 'done'
+  return out
+
+
+STAT_STYLES = ['range', 'range', 'range', 'constant', 'positive', 'negative',
+               'tiny', 'huge', 'zero', 'unit']
+
+
+def constructed_stats(mspec, st_spec):
+  """Check-constructed statistics for every runtime tensor (incl. degenerate)."""
+  import zlib
+  out = {}
+  for sg in mspec['subgraphs']:
+    for t in sg['tensors']:
+      if t['kind'] == 'const':
+        continue
+      rs = np.random.RandomState((st_spec['seed'] * 65537 + zlib.crc32(t['name'].encode())) % (2**32))
+      style = STAT_STYLES[rs.randint(len(STAT_STYLES))] if st_spec.get('wild') else 'range'
+      a, b = abs(rs.randn()) + 0.01, abs(rs.randn()) + 0.01
+      if style == 'range':
+        mn, mx = -a, b
+      elif style == 'constant':
+        mn = mx = rs.randn()
+      elif style == 'positive':
+        mn, mx = a, a + b
+      elif style == 'negative':
+        mn, mx = -a - b, -a
+      elif style == 'tiny':
+        mn, mx = -a * 1e-7, b * 1e-7
+      elif style == 'huge':
+        mn, mx = -a * 1e30, b * 1e30
+      elif style == 'zero':
+        mn = mx = 0.0
+      else:
+        mn, mx = 0.0, 1.0
+      if t['dtype'] != 'f32':
+        mn, mx = 0, 3
+      shape = (1,) * len(t['shape'])
+      dt = np.float32 if t['dtype'] == 'f32' else np.int32
+      out[t['name']] = {'min': np.full(shape, mn, dt), 'max': np.full(shape, mx, dt)}
   return out
 
 
